@@ -187,7 +187,9 @@ def judge_case(case):
         elif comb == "xor":
             if (top[0] == "ok") != (n_ok == 1):
                 kind = "accepts" if top[0] == "ok" else "rejects"
-                fails.append((f"xor/{kind}-with-{min(n_ok, 2)}{'+' if n_ok > 2 else ''}-accepting-arguments", dict(det, exact=any(isinstance(t, type) and type(x) is t for t in built))))
+                exact = any(isinstance(t, type) and type(x) is t for t in built)
+                fails.append((f"xor/{kind}-with-{min(n_ok, 2)}{'+' if n_ok > 2 else ''}-accepting-arguments/{'input-has-exactly-an-argument-type' if exact else 'no-exact-type'}",
+                              dict(det, exact=exact)))
             elif top[0] == "ok":
                 i = det["accepting"][0]
                 if not oracle.equal(top[1], accs[i][1]):
